@@ -11,6 +11,7 @@ import Driver.BinSearch
 import Driver.Indexer
 import Driver.Staking
 import Driver.Crypto
+import Driver.LogFilter
 
 def main (args : List String) : IO UInt32 := do
   let stdin ← IO.getStdin
@@ -29,4 +30,5 @@ def main (args : List String) : IO UInt32 := do
   | ["indexer"] => Driver.loop stdin stdout Driver.Indexer.step Evermint.Indexer.Db.empty; return 0
   | ["staking"] => Driver.loop stdin stdout Driver.Staking.step (); return 0
   | ["crypto"] => Driver.loop stdin stdout Driver.Crypto.step (); return 0
+  | ["logfilter"] => Driver.loop stdin stdout Driver.LogFilter.step (); return 0
   | _ => IO.eprintln "usage: driver <engine>"; return 2
